@@ -17,6 +17,9 @@ def main():
         out = os.path.join(td, "junit.xml")
         cmd = ["/venv/bin/python", "-m", "pytest", "-ra", "-q", "-p", "no:cacheprovider",
                "--timeout=900", "--continue-on-collection-errors", "--junitxml=" + out]
+        fast = "--fast" in sys.argv
+        if fast:
+            cmd += ["--deselect", "tests/test_setup.py", "--ignore", "tests/test_setup.py"]
         p = subprocess.run(cmd, cwd="/repo", env=env, stdout=subprocess.PIPE, stderr=subprocess.STDOUT, text=True)
         tail = "\n".join(p.stdout.splitlines()[-5:])
         passed = set()
@@ -30,6 +33,8 @@ def main():
         print(f"passed={len(passed)} (no BASELINE.json to compare with)")
         return 0
     want = set(BASE["stable_pass"])
+    if "--fast" in sys.argv:
+        want = {w for w in want if not w.startswith("tests.test_setup.")}
     missing = sorted(want - passed)
     print(f"passed={len(passed)} baseline={len(want)} missing={len(missing)}")
     for m in missing[:40]:
